@@ -51,6 +51,8 @@ UNIONS = ("set(self._partition_nonlatent) | set(self._partition_latent)", "set(s
 
 
 def _reset_regimes(ck, an, regimes):
+    from rules import C04
+    C04.partition_reads(ck, an, "S1.event-bearing-keys-only")      # the keys the steps are derived from are the event-bearing timesteps: nothing else may add a key
     fa = an.fa("Transmitter._reset")
     subj = fa.f.short
     ps = fa.f.params
@@ -71,6 +73,8 @@ def _reset_regimes(ck, an, regimes):
 def s1(ck, an):
     _reset_regimes(ck, an, [("S1.fold-steps", ["{length} is None"],
                              "without an episode length the steps are the sorted event-bearing timesteps of both partitions with fold start <= t <= fold end (both inclusive), of the requested fold")])
+    from rules import C04
+    C04.partition_reads(ck, an, "S1.event-bearing-keys-only")      # the keys the steps are derived from are the event-bearing timesteps: nothing else may add a key
     fa = an.fa("Transmitter._reset")
     subj = fa.f.short
     fv = an.fa("PartitionTimeRanges.verify_start_before_end")
@@ -91,8 +95,19 @@ def s1(ck, an):
     fi = an.fa("PartitionTimeRanges.__init__")
     ck.check(bool(fi.calls_to("PartitionTimeRanges.verify_start_before_end")), "ORD", "S1.folds-verified", fi.f.short, fi.f.loc, "folds are verified at construction", "folds are not verified at construction",
              construct="self.verify_start_before_end()")
-    defs = [s_ for s_ in all_stmts(fi) if isinstance(s_, ast.Assign) and ast.unparse(s_.targets[0]) == "folds"]
-    okd = any(ast.unparse(s_.value) == "{TRAINING_SET: [datetime.min, datetime.max]}" and any(p[0] == "is" and "None" in (p[1], p[2]) and p[3] for p in fi.syntactic_guards(s_)) for s_ in defs)
+    # every name keeps its own window: the stored mapping is the given one (or the everything-fold), at most re-ordered as whole (name, window) items
+    fp = fi.f.params[1]
+    got = stored_attr_under(fi, "folds")
+    alts = []
+    for wrap in ("OrderedDict({x})", "dict({x})", "collections.OrderedDict({x})", "{x}"):
+        for inner in ("sorted({f}.items(), key=lambda x: x[1])", "sorted({f}.items(), key=lambda x: x[1][0])", "sorted({f}.items(), key=lambda kv: (kv[1][0], kv[1][1]))", "{f}.items()", "{f}"):
+            alts.append(wrap.format(x=inner))
+    dflt = "{TRAINING_SET: [datetime.min, datetime.max]}"
+    wants = {specv(fi, a.format(f=f"({dflt} if {fp} is None else {fp})")).key() for a in alts}
+    ck.check(got is not None and got in wants, "ARGFLOW", "S1.each-fold-keeps-its-window", fi.f.short, fi.f.loc,
+             "the stored folds are the given (name, window) items, at most re-ordered item by item; without folds, the single training fold spans [datetime.min, datetime.max]",
+             f"self.folds = {str(got)[:300]}: names and windows may be re-paired, or the default fold changed", construct="self.folds = OrderedDict(sorted(folds.items(), key=lambda x: x[1]))")
+    okd = got is not None and specv(fi, dflt).key() in got
     ck.check(okd, "CONST", "S1.default-fold-is-everything", fi.f.short, fi.f.loc, "without folds, the single training fold spans [datetime.min, datetime.max]", "the default fold is not {TRAINING_SET: [datetime.min, datetime.max]}",
              construct="folds = {TRAINING_SET: [datetime.min, datetime.max]}")
     fg = an.fa("PartitionTimeRanges.__getitem__")
